@@ -97,6 +97,16 @@ def catOpt {α : Type} (f : α → Option Bytes) : List α → Option Bytes
     | some a, some r => some (a ++ r)
     | _, _ => none
 
+/-- One map entry: key `[bytes]` then value `[bytes]`. -/
+def pairCell (fk fv : CqlVal → Option Bytes) (kv : CqlVal × CqlVal) : Option Bytes :=
+  match fk kv.1, fv kv.2 with
+  | some a, some b => some (a ++ b)
+  | _, _ => none
+
+/-- Vector content: element contents back to back (fixed width), else each preceded by its vint length. -/
+def vectorBody (fb : CqlVal → Option Bytes) (fixed : Bool) (vs : List CqlVal) : Option Bytes :=
+  if fixed then catOpt fb vs else catOpt (fun x => (fb x).map (fun b => uvintSpec b.length ++ b)) vs
+
 /-- The value of field `n` of a UDT value: its (last) entry with that name, else null. -/
 def fieldOf (n : String) (m : List (String × CqlVal)) : CqlVal :=
   match (m.filter (fun p => p.1 == n)).getLast? with
@@ -129,18 +139,12 @@ def specBody : CqlTy → CqlVal → Option Bytes
         | none => none
       | .map kt vt => match v with
         | .map kvs =>
-          (catOpt (fun (kv : CqlVal × CqlVal) =>
-            match specCell kt kv.1, specCell vt kv.2 with
-            | some a, some b => some (a ++ b)
-            | _, _ => none) kvs).map (fun cells => beBytes 4 kvs.length ++ cells)
+          (catOpt (pairCell (fun k => specCell kt k) (fun x => specCell vt x)) kvs).map
+            (fun cells => beBytes 4 kvs.length ++ cells)
         | _ => none
       | .vector elt dim => match elemsOf v with
         | some vs =>
-          if vs.length = dim then
-            match fixedWidth elt with
-            | some _ => catOpt (fun x => specBody elt x) vs
-            | none => catOpt (fun x => (specBody elt x).map (fun b => uvintSpec b.length ++ b)) vs
-          else none
+          if vs.length = dim then vectorBody (fun x => specBody elt x) (fixedWidth elt).isSome vs else none
         | none => none
       | .tuple ts => match v with
         | .tuple fs => if fs.length ≤ ts.length then specTuple ts fs else none
